@@ -14,7 +14,12 @@ MANIFEST = {
     "technique": "Lean 4 proof (induction/invariants over an executable model) + differential correspondence with the real code",
 }
 
-REQUIRED = ["KV.C20.read_eq", "KV.C20.write_read", "KV.C20.write_frame", "KV.C20.write_bits"]
+REQUIRED = ["KV.C20.read_eq", "KV.C20.write_read", "KV.C20.write_frame", "KV.C20.write_bits",
+            "KV.C20.write25_read", "KV.C20.write25_frame", "KV.C20.float32_write_read", "KV.C20.float31_write_read",
+            "KV.C20.required_bits_fits", "KV.C20.required_bits_minimal",
+            "KV.C20.pivot32_acceptable", "KV.C20.pivot64_acceptable", "KV.C20.bounded_find_correct",
+            "KV.C20.bounded_find_probes_in_range", "KV.C20.bounded_find_terminates",
+            "KV.C20.sorted_uniform_correct", "KV.C20.binary_find_correct"]
 
 
 # ---------------------------------------------------------------- generators: bit fields
@@ -134,6 +139,95 @@ def bits_stream(ctx, hexe, dexe, n_cases):
     return found
 
 
+# ---------------------------------------------------------------- generators: sorted-array search
+def gen_sorted_array(rng, bits):
+    top = (1 << bits) - 1
+    style = rng.choice(["uniform", "clustered", "two", "extremes", "dups", "dense", "tiny", "single", "empty"])
+    n = rng.choice([1, 2, 3, 5, 8, 17, 64, rng.randrange(1, 200)])
+    if style == "uniform":
+        a = [rng.randrange(0, top + 1) for _ in range(n)]
+    elif style == "clustered":
+        c = rng.randrange(0, top + 1)
+        a = [min(top, max(0, c + rng.randrange(-50, 50))) for _ in range(n)] + [rng.randrange(0, top + 1) for _ in range(rng.randrange(0, 3))]
+    elif style == "two":
+        x, y = rng.randrange(0, top + 1), rng.randrange(0, top + 1)
+        a = [rng.choice([x, y]) for _ in range(n)]
+    elif style == "extremes":
+        a = [rng.choice([0, top, 1, top - 1, rng.randrange(0, top + 1)]) for _ in range(n)]
+    elif style == "dups":
+        pool = [rng.randrange(0, top + 1) for _ in range(max(1, n // 4))]
+        a = [rng.choice(pool) for _ in range(n)]
+    elif style == "dense":
+        b = rng.randrange(0, 1000)
+        a = list(range(b, b + n))
+    elif style == "tiny":
+        a = [rng.randrange(0, 4) for _ in range(n)]
+    elif style == "single":
+        a = [rng.randrange(0, top + 1)]
+    else:
+        a = []
+    a.sort()
+    return style, a
+
+
+def search_stream(ctx, hexe, dexe, n_cases):
+    found = False
+    for ci in range(n_cases):
+        bits = ctx.rng.choice([32, 64])
+        style, a = gen_sorted_array(ctx.rng, bits)
+        top = (1 << bits) - 1
+        keys = set()
+        if len(a) <= 24:
+            for x in a:
+                keys.update([x, max(0, x - 1), min(top, x + 1)])
+        else:
+            for x in ctx.rng.sample(a, 12):
+                keys.update([x, max(0, x - 1), min(top, x + 1)])
+        keys.update([0, top, ctx.rng.randrange(0, top + 1)])
+        keys = sorted(keys)
+        ops = ["arr " + " ".join(map(str, a))]
+        oracle = []
+        aset = set(a)
+        mx = max(a) if a else 0
+        for k in keys:
+            want = "found" if k in aset else "absent"
+            kinds = ["suf64", "bin"] + (["suf32"] if bits == 32 else [])
+            # the trie/vocab call shape needs 0 <= key <= max (precondition before_v <= key <= after_v)
+            bound = ctx.rng.choice([mx, top]) if k <= mx else top
+            for kind in kinds:
+                oracle.append((len(ops), want)); ops.append("%s %d" % (kind, k))
+            oracle.append((len(ops), want)); ops.append("bsuf64 %d %d" % (k, bound))
+            if bits == 32:
+                oracle.append((len(ops), want)); ops.append("bsuf32 %d %d" % (k, bound))
+        (rc1, o1, e1), (rc2, o2, e2) = stream.both(hexe, dexe, ops)
+        ctx.count(("search", tuple(ops)), nontrivial=len(a) >= 2)
+        ctx.hist("search.style", style)
+        ctx.hist("search.bits", bits)
+        if ci < 1:
+            ctx.sample({"stream": "search", "ops": ops[:8], "impl": o1[:8]})
+        if rc1 != 0:
+            ctx.violation("harness died on search script (rc=%s): %s" % (rc1, e1[-400:]),
+                          {"stream": "search", "ops": ops, "stderr": e1[-2000:]})
+            found = True
+            continue
+        for idx, want in oracle:
+            if idx >= len(o1) or o1[idx] != want:
+                ctx.violation("search reports a key %s although it is %s in the sorted array" % (
+                    o1[idx] if idx < len(o1) else None, want),
+                    {"stream": "search", "ops": [ops[0], ops[idx]], "impl": o1[idx] if idx < len(o1) else None,
+                     "expected": want})
+                found = True
+                break
+        d = stream.first_diff(o1, o2)
+        if d is not None or rc2 != 0:
+            ctx.violation("model and implementation disagree on a search",
+                          {"stream": "search", "ops": [ops[0], ops[d]] if d is not None and d < len(ops) else ops,
+                           "impl": o1[d] if d is not None and d < len(o1) else None,
+                           "model": o2[d] if d is not None and d < len(o2) else None}, no_input=not found)
+            found = True
+    return found
+
+
 def run(ctx):
     problems, consts = flow.proof_phase(ctx, "C20", required=REQUIRED, drivers=["drv_C20"])
     ok, hexe, lg = repo.harness("c20.cc", extra=[REPO + "/util/bit_packing.cc", REPO + "/util/exception.cc",
@@ -145,6 +239,7 @@ def run(ctx):
     dexe = lean.driver_path("drv_C20")
     n = 150 if ctx.tier == "quick" else 4000
     found = bits_stream(ctx, hexe, dexe, n)
+    found = search_stream(ctx, hexe, dexe, n) or found
     ctx.cov["rule"] = ("bits: seeded scripts over buffers of 8..96 bytes with disjoint zero fields (widths 1..57 / 1..25 / "
                        "float32 / float31) among all-ones, random or zero neighbours, every bit offset mod 8; a case is "
                        "non-trivial when it has >= 2 fields; distinct by op script")
